@@ -424,6 +424,20 @@ func (e *Engine) Merge(g *T, a, b Value) Value {
 			}
 		}
 		return &NDCount{m: out}
+	case *FileTab:
+		y := b.(*FileTab)
+		out := make(map[string]*SliceV, len(x.m))
+		for k, v := range x.m {
+			out[k] = v
+		}
+		for k, v := range y.m {
+			if o, ok := out[k]; ok && o != v {
+				out[k] = e.Merge(g, o, v).(*SliceV)
+			} else {
+				out[k] = v
+			}
+		}
+		return &FileTab{m: out}
 	case *IterV:
 		return x
 	}
